@@ -230,6 +230,9 @@ func dirRun(prop string) func(r *runCtx, id string, f []string) {
 				}
 			}
 		}
+		if env.hung != "" {
+			fails = append([]fl{{"load-hangs", env.hung}}, fails...)
+		}
 		if len(fails) == 0 {
 			r.ok(id)
 		} else {
